@@ -325,7 +325,8 @@ PROPS = {
     'C12': dict(
         rules=[r_nan.s16_nan_sources, r_nan.s16b_dispersion_sign, r_nan.s16c_band_order,
                lambda ctx: r_step.s07_step_once(ctx, only_types='windowed', rule_id='S07o')],
-        feature_sets=_sets(['default']),
+        feature_sets=_sets(['default'], ['default', 'f32']),
+        rules_thorough=[on_build(r_nan.s16_nan_sources, 'f32'), on_build(r_nan.s16b_dispersion_sign, 'f32'), on_build(r_nan.s16c_band_order, 'f32')],
         explanation=('(S16) every float division, remainder, sqrt, ln, atanh and recip in every non-constructor function is enumerated from MIR '
                      'and its critical operand classified: G1 non-zero literal; G2 cast of an integer that the abstract interpretation of '
                      'init()/new() bounds >= 1 for every accepted instance, or a float field fixed non-zero at construction and never written '
